@@ -56,6 +56,14 @@ type Ev struct {
 	Pkts      [][]byte      `json:"pkts,omitempty"`
 	Mtu       int           `json:"mtu,omitempty"`
 	Ep        int           `json:"ep,omitempty"`
+	// anshs2: two authenticating responses to one initiation of the device -- the genuine one (Sender Ridx, from Ep) and a
+	// copy with another Sender word and a recomputed MAC1 (Sender Ridx2, from Ep2) -- are delivered in ONE receive batch, so
+	// that two handshake workers process them concurrently (Swap: the copy comes first).  Win = which one completed the
+	// handshake, read off the wire: the response whose source address the step's first transport datagram goes to.
+	Ep2   int    `json:"ep2,omitempty"`
+	Ridx2 uint32 `json:"ridx2,omitempty"`
+	Swap  bool   `json:"swap,omitempty"`
+	Win   int    `json:"win,omitempty"`
 	// oracle / observed
 	Ridx uint32 `json:"ridx,omitempty"`
 	Obs  []Obs  `json:"obs"`
@@ -96,6 +104,23 @@ type ConfSection struct {
 	Psk       bool `json:"psk,omitempty"`
 }
 
+// raceArmed: while an anshs2 step runs, the handshake worker that has just consumed a response is held back for a moment at
+// the device's log call between ConsumeMessageResponse and BeginSymmetricSession (the logger is a dependency the harness
+// injects: a schedule-control point like the gates of the simulated bind), so that the other worker -- which is refused --
+// finishes inside that window in most rounds instead of a few per cent of them.
+var raceArmed atomic.Bool
+
+func raceLogger() *device.Logger {
+	return &device.Logger{
+		Verbosef: func(format string, args ...any) {
+			if raceArmed.Load() && strings.HasSuffix(format, "Received handshake response") {
+				time.Sleep(200 * time.Microsecond)
+			}
+		},
+		Errorf: func(string, ...any) {},
+	}
+}
+
 // poisoned: this process must not run another scenario (a step did not settle or the device did not close)
 var poisoned bool
 
@@ -109,7 +134,12 @@ func closeWorld(w *cosim.World) {
 	}
 }
 
+// Endpoint ids: 1..99 = 192.0.2.<id>:4000+<id>; 100+k = the SAME address as id k and another port (7000+id): a peer whose
+// source port alone changed (NAT rebinding, restart with an ephemeral port).
 func epAddr(id int) netip.AddrPort {
+	if id >= 100 && id < 200 {
+		return netip.MustParseAddrPort(fmt.Sprintf("192.0.2.%d:%d", id-100, 7000+id))
+	}
 	return netip.MustParseAddrPort(fmt.Sprintf("192.0.2.%d:%d", id, 4000+id))
 }
 
@@ -118,7 +148,18 @@ func epID(ap netip.AddrPort) int {
 	if b[0] == 192 && b[1] == 0 && b[2] == 2 && int(ap.Port()) == 4000+int(b[3]) {
 		return int(b[3])
 	}
+	if b[0] == 192 && b[1] == 0 && b[2] == 2 && int(b[3]) < 100 && int(ap.Port()) == 7100+int(b[3]) {
+		return 100 + int(b[3])
+	}
 	return 255
+}
+
+// portTwin: the endpoint id of the same address with the other port
+func portTwin(id int) int {
+	if id >= 100 {
+		return id - 100
+	}
+	return id + 100
 }
 
 // ---------------------------------------------------------------- running
@@ -202,7 +243,7 @@ func run(sc *Scenario, src func(i int, h *hstate) *Ev) {
 		}
 		peers[i] = cosim.NewPeer(fmt.Sprintf("P%d", i), addr, allowed...)
 	}
-	w, err := cosim.NewWorld(cosim.Config{Up: true, BindBatch: 8, TunBatch: sc.TunBatch, MTU: sc.MTU}, true, peers...)
+	w, err := cosim.NewWorld(cosim.Config{Up: true, BindBatch: 8, TunBatch: sc.TunBatch, MTU: sc.MTU, Logger: raceLogger()}, true, peers...)
 	if err != nil {
 		sc.Discarded = "world: " + err.Error()
 		return
@@ -223,7 +264,7 @@ func run(sc *Scenario, src func(i int, h *hstate) *Ev) {
 			sent = append(sent, o.Sent...)
 			settled = settled && o.Settled
 		}
-		if h.down && (ev.Kind == "refhs" || ev.Kind == "anshs" || ev.Kind == "roam" || ev.Kind == "replayinit") {
+		if h.down && (ev.Kind == "refhs" || ev.Kind == "anshs" || ev.Kind == "anshs2" || ev.Kind == "roam" || ev.Kind == "replayinit") {
 			continue // the bind is closed: nothing can arrive
 		}
 		switch ev.Kind {
@@ -307,6 +348,53 @@ func run(sc *Scenario, src func(i int, h *hstate) *Ev) {
 			h.ep[ev.Peer] = ev.Ep
 			ev.Ridx = s.LocalIdx
 			take(out)
+		case "anshs2":
+			if h.lastInit[ev.Peer] == nil || ev.Ep == ev.Ep2 {
+				continue // nothing to answer: the event does not exist
+			}
+			p := peers[ev.Peer]
+			rs, err := ref.ConsumeInitiation(h.lastInit[ev.Peer], p.Priv)
+			if err != nil || rs.InitiatorStatic != w.DevPub {
+				sc.Discarded = fmt.Sprintf("event %d: answer (race): %v", i, err)
+				return
+			}
+			p.NextIdx += 2
+			ev.Ridx, ev.Ridx2 = p.NextIdx-1, p.NextIdx
+			resp, sess := rs.CreateResponse(ref.NewPrivate(), p.Psk, ev.Ridx)
+			// the Sender word is outside the Noise transcript: only MAC1 (keyed by the device's public key) covers it
+			twin := append([]byte{}, resp...)
+			binary.LittleEndian.PutUint32(twin[4:8], ev.Ridx2)
+			twin = ref.WithCookie(twin, w.DevPub, nil)
+			ds := []sim.Dgram{{From: epAddr(ev.Ep), Data: resp}, {From: epAddr(ev.Ep2), Data: twin}}
+			if ev.Swap {
+				ds[0], ds[1] = ds[1], ds[0]
+			}
+			raceArmed.Store(true)
+			w.Bind.Inject(ds...) // one receive batch: two elements on the handshake queue, two workers
+			out := w.Take()
+			raceArmed.Store(false)
+			take(out)
+			ev.Win = 0
+			for _, sn := range out.Sent {
+				if len(sn.Data) >= 32 && sn.Data[0] == ref.TypeTransport {
+					if sn.To == epAddr(ev.Ep2) {
+						ev.Win = 1
+					}
+					break
+				}
+			}
+			ws := *sess
+			h.ep[ev.Peer] = ev.Ep
+			if ev.Win == 1 {
+				ws.LocalIdx = ev.Ridx2
+				h.ep[ev.Peer] = ev.Ep2
+			}
+			p.Sessions = append(p.Sessions, &ws)
+			h.sessions = append(h.sessions, &ws)
+			h.owner = append(h.owner, ev.Peer)
+			h.cur[ev.Peer] = &ws
+			h.expired[ev.Peer] = false
+			h.lastInit[ev.Peer] = nil
 		case "conf":
 			if h.down {
 				continue
@@ -598,8 +686,12 @@ func (g *gen) next(i int, h *hstate) *Ev {
 		}
 		return ev
 	case x < 76:
-		return &Ev{Kind: "refhs", Peer: p, Ep: []int{sc.Eps[p], 10 + p, 20 + p}[1+r.Intn(2)]}
-	case x < 88:
+		ep := []int{sc.Eps[p], 10 + p, 20 + p}[1+r.Intn(2)]
+		if h.ep[p] != 0 && r.Intn(4) == 0 { // the remote initiates from its address and another port
+			ep = portTwin(h.ep[p])
+		}
+		return &Ev{Kind: "refhs", Peer: p, Ep: ep}
+	case x < 86:
 		for q := 0; q < sc.NPeers; q++ { // prefer a peer with an outstanding initiation
 			if h.lastInit[(p+q)%sc.NPeers] != nil {
 				p = (p + q) % sc.NPeers
@@ -610,8 +702,21 @@ func (g *gen) next(i int, h *hstate) *Ev {
 		if ep == 0 || r.Intn(4) == 0 {
 			ep = 20 + p
 		}
+		if h.ep[p] != 0 && r.Intn(5) == 0 { // the response comes from the address the initiation went to, another port
+			ep = portTwin(h.ep[p])
+		}
+		if r.Intn(4) == 0 { // two responses that differ in the Sender word race through two handshake workers
+			ep2 := 60 + p
+			if r.Intn(2) == 0 {
+				ep2 = portTwin(ep)
+			}
+			return &Ev{Kind: "anshs2", Peer: p, Ep: ep, Ep2: ep2, Swap: r.Intn(2) == 0}
+		}
 		return &Ev{Kind: "anshs", Peer: p, Ep: ep}
 	case x < 90:
+		if h.ep[p] != 0 && r.Intn(2) == 0 { // authenticated packet from the same address and another port
+			return &Ev{Kind: "roam", Peer: p, Ep: portTwin(h.ep[p])}
+		}
 		return &Ev{Kind: "roam", Peer: p, Ep: 30 + p}
 	case x < 91:
 		return &Ev{Kind: "replayinit", Peer: p, Ep: 40 + p}
@@ -756,6 +861,24 @@ func directed() []*Scenario {
 		{Kind: "tun", Pkts: [][]byte{v4to([4]byte{10, 1, 9, 2}, 62, 3), v4to([4]byte{10, 1, 2, 2}, 63, 4)}},
 	}
 	out = append(out, sc9)
+	// the source port alone changes (same address): every kind of authenticated inbound message moves the endpoint, the
+	// next datagrams go to the new port
+	sc10 := &Scenario{Kind: "scenario", Gen: "directed-port-change", NPeers: 2, Table: tbl, MTU: 1420, TunBatch: 4, Eps: []int{1, 2}}
+	pair := func(t uint16) Ev {
+		return Ev{Kind: "tun", Pkts: [][]byte{v4to([4]byte{10, 1, 9, 1}, 60, t), v4to([4]byte{10, 1, 2, 1}, 61, t+1)}}
+	}
+	sc10.Evs = []Ev{{Kind: "refhs", Peer: 0, Ep: 1}, {Kind: "refhs", Peer: 1, Ep: 2}, pair(1),
+		{Kind: "roam", Peer: 0, Ep: 101}, pair(3),
+		{Kind: "roam", Peer: 1, Ep: 102}, pair(5),
+		{Kind: "roam", Peer: 0, Ep: 1}, pair(7),
+		{Kind: "expire", Peer: 0}, {Kind: "shifths", Peer: 0}, pair(9),
+		{Kind: "anshs", Peer: 0, Ep: 101}, pair(11), // the response comes from the other port
+		{Kind: "refhs", Peer: 1, Ep: 2}, pair(13), // the remote initiates from the first port again
+		{Kind: "expire", Peer: 1}, {Kind: "shifths", Peer: 1}, pair(15),
+		{Kind: "anshs2", Peer: 1, Ep: 2, Ep2: 102}, pair(17),
+		{Kind: "roam", Peer: 1, Ep: 32}, {Kind: "roam", Peer: 1, Ep: 132}, pair(19),
+	}
+	out = append(out, sc10)
 	// bind.Send errors: what the bind did not transmit is never transmitted, nothing goes out twice, and
 	// unroutable plaintext read into recycled buffers never reaches the wire
 	sc6 := &Scenario{Kind: "scenario", Gen: "directed-send-errors", NPeers: 2, Table: tbl, MTU: 1420, TunBatch: 4, Eps: []int{1, 2}}
@@ -845,6 +968,42 @@ func directed() []*Scenario {
 		out = append(out, sc5)
 	}
 	return out
+}
+
+// raceScenario: a statistical pass (like C04's duplicate-response pass): `rounds` times the device initiates, and two
+// authenticating responses that differ in the Sender word (and in the source address, so that the wire shows which of them
+// completed the handshake) arrive in one receive batch; a TUN packet is staged before (flushed by the winner) and another
+// follows; then the session is aged out and the next round begins.  Every datagram is judged by the ordinary specification:
+// receiver index AND endpoint must be those of ONE response.
+func raceScenario(npeers, rounds int, twinPort bool) *Scenario {
+	tbl := []dpath.Entry{{Fam: 4, Bits: []byte{10, 1, 0, 0}, Len: 16, Owner: 0}, {Fam: 4, Bits: []byte{10, 1, 2, 0}, Len: 24, Owner: 1}}
+	sc := &Scenario{Kind: "scenario", Gen: fmt.Sprintf("race-responses-%d-peers", npeers), NPeers: npeers, Table: tbl[:npeers], MTU: 1420, TunBatch: 4, Rounds: rounds}
+	for p := 0; p < npeers; p++ {
+		sc.Eps = append(sc.Eps, p+1)
+	}
+	tag := uint16(1)
+	for r := 0; r < rounds; r++ {
+		p := r % npeers
+		dst := [4]byte{10, 1, 9, byte(r)}
+		if p == 1 {
+			dst = [4]byte{10, 1, 2, byte(r)}
+		}
+		ep2 := 60 + p
+		if twinPort {
+			ep2 = portTwin(p + 1)
+		}
+		staged := Ev{Kind: "tun", Pkts: [][]byte{v4to(dst, 60+r%40, tag)}}
+		if r%3 == 2 {
+			staged.Pkts = append(staged.Pkts, v4to(dst, 70+r%40, tag+2))
+		}
+		sc.Evs = append(sc.Evs, Ev{Kind: "shifths", Peer: p}, staged,
+			Ev{Kind: "anshs2", Peer: p, Ep: p + 1, Ep2: ep2, Swap: r%2 == 1},
+			Ev{Kind: "tun", Pkts: [][]byte{v4to(dst, 61+r%40, tag+1)}},
+			Ev{Kind: "roam", Peer: p, Ep: p + 1}, // the remote keeps talking from its configured address
+			Ev{Kind: "expire", Peer: p})
+		tag += 3
+	}
+	return sc
 }
 
 func padSweeps() []*Scenario {
@@ -946,6 +1105,8 @@ func gallina(sc *Scenario) string {
 			fmt.Fprintf(&b, "RRef %d %d %d", ev.Peer, ev.Ridx, ev.Ep)
 		case "anshs":
 			fmt.Fprintf(&b, "RAns %d %d %d", ev.Peer, ev.Ridx, ev.Ep)
+		case "anshs2":
+			fmt.Fprintf(&b, "RAns2 %d %d %d %d %d %d", ev.Peer, ev.Ridx, ev.Ep, ev.Ridx2, ev.Ep2, ev.Win)
 		case "roam":
 			fmt.Fprintf(&b, "RRoam %d %d", ev.Peer, ev.Ep)
 		case "replayinit":
@@ -1055,6 +1216,7 @@ func buildJobs(seed int64, n int, big bool, corpus, replayIn string) []job {
 	}
 	jobs = append(jobs, fixedJob(realBindScenario(2, 150)), fixedJob(realBindScenario(3, 100)))
 	jobs = append(jobs, fixedJob(floodScenario(1, floodMs)), fixedJob(floodScenario(1, floodMs)), fixedJob(floodScenario(3, floodMs/2)))
+	jobs = append(jobs, fixedJob(raceScenario(1, 40, false)), fixedJob(raceScenario(1, 40, true)), fixedJob(raceScenario(2, 40, false)))
 	master := rand.New(rand.NewSource(seed)) // ONE PRNG: it deals a seed to every random scenario
 	for i := 0; i < n; i++ {
 		s := master.Int63()
